@@ -13,7 +13,7 @@ MUST_RAISE = [
     'origin-ref-2^30', 'origin-ref-negative', 'copy-number-256', 'header-id-66', 'header-seq-0', 'header-seq-1e10',
     'sul-id-61', 'sul-seq-10000', 'dtime-year-1899', 'dtime-year-2156', 'status-2', 'frame-without-channels',
     'zero-rows', 'record-length-odd', 'record-length-18', 'record-length-16386', 'int-attr-fraction', 'encrypted-2',
-    'window-empty', 'window-beyond', 'slong-2^31',
+    'window-empty', 'window-beyond', 'slong-2^31', 'missing-dataset-after-earlier-write', 'partial-data-after-earlier-write',
 ]
 FRINGE = ['empty-value-list', 'empty-text', 'empty-payload', 'single-row', 'width-1', 'origin-ref-0', 'name-255', 'ident-255',
           'text-20000', 'units-255', 'many-values-300', 'set-name-255', 'header-id-65', 'sul-id-60', 'empty-ident',
@@ -86,6 +86,11 @@ def inject(sp, c, r):
     if c == 'data-3d':
         ops[fch[-1]]['data']['shape'] = [n, 2, 2]
         return 'channel data'
+    if c in ('missing-dataset-after-earlier-write', 'partial-data-after-earlier-write'):
+        # history: a first write is given all data through write(data=dict); a later write of the same DLISFile is not
+        sp['write']['source'] = 'dict'
+        sp['write']['history'] = c
+        return 'second write'
     if c == 'missing-dataset':
         sp['write']['source'] = 'dict'
         sp['write']['drop_key'] = ops[fch[-1]].get('dataset_name') or ops[fch[-1]]['name']
@@ -330,7 +335,24 @@ def run_case(case):
         return orig_make(a)
     S.make_array = make_array
     try:
-        if sp['write'].get('drop_key'):
+        if sp['write'].get('history'):
+            b = S.build(sp)
+            path = harness.fresh_path()
+            data = S.make_write_data(sp, b, harness.scratch_dir()) if b.error is None else None
+            w1 = S.do_write(sp, b, path, harness.scratch_dir(), data=data) if b.error is None else b.error
+            bump('history-first-write-' + w1[0])
+            if isinstance(data, dict) and sp['write']['history'].startswith('partial') and len(data) > 1:
+                # only ONE of the datasets is supplied again (with new values); the others are missing now
+                k0 = sorted(data)[0]
+                data2 = {k0: (data[k0] + 1).astype(data[k0].dtype)}
+            else:
+                data2 = None
+            wout = S.do_write(sp, b, path, harness.scratch_dir(), data=data2) if b.error is None else b.error
+            fdata = open(path, 'rb').read() if wout[0] == 'ok' else None
+            run = oracle.Run(sp, b, wout, fdata, None, None, [])
+            if data2 is not None:
+                run.arrays = {}     # nothing can be faithful: the specification lacks data -> returning is the violation
+        elif sp['write'].get('drop_key'):
             b = S.build(sp)
             data = S.make_write_data(sp, b, harness.scratch_dir()) if b.error is None else None
             if isinstance(data, dict):
@@ -357,7 +379,8 @@ def run_case(case):
         if c in MUST_RAISE:
             vio.append({'prop': PROP, 'kind': 'unrepresentable-input-accepted', 'mech': 'accepted:' + c,
                         'detail': f'class {c} injected at {site}: write returned normally ({len(run.data)} bytes)'})
-        oracle.analyse(run)
+        if not sp['write'].get('history'):
+            oracle.analyse(run)
         seen = set()
         for v in run.violations:
             key = (v.prop, v.mech)
